@@ -92,6 +92,16 @@ Theorem C11_reviver_bottom_up : forall id f key v,
 Proof. exact rwalk_node_last. Qed.
 Print Assumptions C11_reviver_bottom_up.
 
+(* 15.12.2 Walk step 3.a reads the array length once: whatever the reviver does to its
+   holder (revivers 8-12 push, pop, truncate, lengthen, unshift), it is called for exactly
+   the indices 0 .. len-1 of the array as parsed, in order, then for the array itself *)
+Theorem C11_reviver_array_length_read_once : forall id f key l,
+  forallb leaf l = true ->
+  map fst (fst (rwalk id (S (S f)) key (OArr l)))
+  = map (fun i => dec (Z.of_nat i)) (seq 0 (length l)) ++ [key].
+Proof. exact rwalk_array_length_read_once. Qed.
+Print Assumptions C11_reviver_array_length_read_once.
+
 (* deletions on undefined: the reviver that returns undefined for every member
    leaves no member behind, for every object (otto's walk used to lose track of
    members while deleting; repaired by 7f33b5d, so model = spec here) *)
@@ -161,3 +171,10 @@ Qed.
 Example C11_property_list_example :
   plist_of otto [PJunk; PStr [97]; PStr [97]; PNum 1; PWStr [98]] = [[97]; [49]; [98]].
 Proof. reflexivity. Qed.
+
+Example C11_length_read_once_example :
+  forallb leaf [ONull; ONull; ONull] = true /\
+  snd (rwalk 8 3 [] (OArr [ONull; ONull])) = OArr [ONull; ONull; OStr [80]] /\
+  snd (rwalk 9 3 [] (OArr [ONull; ONull; ONull])) = OArr [ONull; ONull; OStr [68]] /\
+  snd (rwalk 10 3 [] (OArr [ONull; OBool true])) = OArr [ONull].
+Proof. repeat split; reflexivity. Qed.
